@@ -27,9 +27,10 @@ func init() {
 
 	register(&Property{
 		ID: "C01", Title: "Subscribed resources converge to the state announced by the service",
-		Explanation: "Decides structural necessary conditions of convergence, on every path and for every schedule: (1) in the cache, content, version and the event's update flag change together, and an initial load stores content, version 0 and the loaded state only under the not-loaded test of that same entry (PAIR/version-bump); every event is stamped with the pre-update version, applied by its handler, fanned out inside the unlock window and dropped only by the listed discards (CONF/handle-event); (2) cache content and version are written only by cache tasks under the entry's mutex and read under it (CTX/guarded-by); (3) the subscriber applies an event only when it targets its version and advances by one per update (DOM/version-filter); (4) events are processed only with the event gate known open, discarded before load, and reaccess dispatched first (DOM/event-gate); (5) queues are updated in order-preserving forms (FIFO); (6) all mutable subscription state is touched on the connection worker only (CTX/conn); (7) a resource made sendable again must carry a current snapshot (PAIR/snapshot-current: known finding F13); cached model and collection values are never written in place: every container write in the repository is traced to its origin and none originates from Collection.Values / Model.Values (DOM/copy-on-write); a fanned-out ResourceEvent is read-only, no field of it — also one added later — is stored by subscriber-side code (WHO/event-immutable). Not decided: end-to-end equality of the client copy with the service state, Value.Equal, the reset diff (C12), the collector (C02), JSON encodings, legacy-encoding selection. Added after seeding round 7: an entry handed out for subscribing has its messaging-system event subscription on every path (PAIR/cache-count) — without it no event arrives and nothing converges; the cached encodings Model.data/Collection.data are read only by MarshalJSON (WHO/state readers). Added after seeding round 8: a removed cache entry is cleared from every index, the base pointer included (DOM/unregister). Added after seeding round 9: events held back for a resource are let through only after the frame that delivers it (PAIR/rpc-resources). Added after seeding round 10: no test of a field contradicts a store of the same object that dominates it (CONTRA/stale-test). Added after seeding round 11: a run of adds derived from a re-fetch or query answer by one ascending loop moves its index along, so the run does not arrive reversed (TABLE/add-run). Added after seeding round 12: a release with the collect flag set reaches the collector on every path (DOM/gc-after-release); the pass of the reset model diff that marks missing keys deleted runs for every re-fetched model (DOM/diff-unconditional); a resource event is applied to the resource it names (DOM/event-target).",
+		Explanation: "Decides structural necessary conditions of convergence, on every path and for every schedule: (1) in the cache, content, version and the event's update flag change together, and an initial load stores content, version 0 and the loaded state only under the not-loaded test of that same entry (PAIR/version-bump); every event is stamped with the pre-update version, applied by its handler, fanned out inside the unlock window and dropped only by the listed discards (CONF/handle-event); (2) cache content and version are written only by cache tasks under the entry's mutex and read under it (CTX/guarded-by); (3) the subscriber applies an event only when it targets its version and advances by one per update (DOM/version-filter); (4) events are processed only with the event gate known open, discarded before load, and reaccess dispatched first (DOM/event-gate); (5) queues are updated in order-preserving forms (FIFO); (6) all mutable subscription state is touched on the connection worker only (CTX/conn); (7) a resource made sendable again must carry a current snapshot (PAIR/snapshot-current: known finding F13); cached model and collection values are never written in place: every container write in the repository is traced to its origin and none originates from Collection.Values / Model.Values (DOM/copy-on-write); a fanned-out ResourceEvent is read-only, no field of it — also one added later — is stored by subscriber-side code (WHO/event-immutable). Not decided: end-to-end equality of the client copy with the service state, Value.Equal, the reset diff (C12), the collector (C02), JSON encodings, legacy-encoding selection. Added after seeding round 7: an entry handed out for subscribing has its messaging-system event subscription on every path (PAIR/cache-count) — without it no event arrives and nothing converges; the cached encodings Model.data/Collection.data are read only by MarshalJSON (WHO/state readers). Added after seeding round 8: a removed cache entry is cleared from every index, the base pointer included (DOM/unregister). Added after seeding round 9: events held back for a resource are let through only after the frame that delivers it (PAIR/rpc-resources). Added after seeding round 10: no test of a field contradicts a store of the same object that dominates it (CONTRA/stale-test). Added after seeding round 11: a run of adds derived from a re-fetch or query answer by one ascending loop moves its index along, so the run does not arrive reversed (TABLE/add-run). Added after seeding round 12: a release with the collect flag set reaches the collector on every path (DOM/gc-after-release); the pass of the reset model diff that marks missing keys deleted runs for every re-fetched model (DOM/diff-unconditional); a resource event is applied to the resource it names (DOM/event-target). Added after the mutation sweep: the encoding a client gets follows its negotiated protocol version in one way at every site — `version < 1.2.1` selects the legacy encoders, which are used nowhere else; the 1.2.0 marshalers convert exactly when a value is a soft reference or a data value (TABLE/legacy-select). This was the clause 'legacy-encoding selection' listed as not decided until round 12.",
 		Assumptions: append([]string{"at most one cache worker runs a resource queue at a time (FIFO/CHAN rules) and one output worker per connection (CTX/conn)"}, baseAssumptions...),
 		Rules: []Rule{
+			{Name: "TABLE/legacy-select", Min: 8, Run: ruleLegacySelect, Doc: "clients below protocol 1.2.1 get the legacy encoding, 1.2.1 and later the current one — everywhere the version is consulted; 1.2.0 marshalers convert exactly for soft references and data values"},
 			{Name: "DOM/event-target", Min: 1, Run: ruleEventTarget, Doc: "a resource event is applied to the resource it names"},
 			{Name: "DOM/diff-unconditional", Min: 1, Run: ruleDiffUnconditional, Doc: "every cached key missing from a re-fetched model is marked deleted"},
 			{Name: "DOM/gc-after-release", Min: 1, Run: ruleGCAfterRelease, Doc: "a released reference reaches the collector on every path: a reference cycle the client dropped is not left marked sent (and then left out of the next resource set that references it)"},
@@ -65,9 +66,12 @@ func init() {
 
 	register(&Property{
 		ID: "C02", Title: "Every message is applicable: no dangling references or stray events",
-		Explanation: "Decides: the typestate table of Subscription.state (who may move a subscription into which state); populate → hand the frame over → release on every path (PAIR/rpc-resources); the shapes the collector relies on: ReleaseRPCResources marks sent, descends into every reference and then opens the loading gate; populateResources* count an edge once, skip sent resources and mark ToSend before descending; removeCount's counter effects follow its direct/sent/tryDelete arguments; every disposed subscription leaves the connection's table (DOM/ref-shapes); references are released with the parent's sent-ness as it was while the edge was counted (PROV/sent-flag: known finding F6); the sent-count is raised once per created edge (PAIR/edge-sent-once: known finding F8); a re-sendable resource has a current snapshot and a closed gate (PAIR/snapshot-current: known finding F13); no change on a collection, no add/remove on a model, decoded indexes inside [0,len] (DOM/index-kind-guard); no event before the hand-over (DOM/event-gate); recursion census. NOT decided — and this is the core of the property: correctness of the two-pass reference-count collector tryDelete/Unsend and of the indirectsent arithmetic on arbitrary reference graphs. Added after seeding round 7: the encoding cached for the latest protocol is read by MarshalJSON only, so a legacy connection is never handed bytes in the wrong dialect (WHO/encoding-cache). Added after seeding round 8: collection snapshots held by still-loading subscriptions are never written in place (DOM/copy-on-write). Added after seeding round 9: marshalers put text into a frame only through json.Marshal, so every frame is well-formed (PROV/json-text). Added after seeding round 10: CONTRA/stale-test (see C01) for the collector's sent-count bookkeeping. Added after seeding round 11: the unsubscribe event releases every direct subscription (DOM/revoke), so no later event targets a resource the client dropped. Added after seeding round 12: the already-handed-over quick exit of populateResources* is taken for exactly the states to-send and sent, by constant propagation over the seven states (TABLE/populate-skip); a release with the collect flag set reaches the collector on every path (DOM/gc-after-release).",
+		Explanation: "Decides: the typestate table of Subscription.state (who may move a subscription into which state); populate → hand the frame over → release on every path (PAIR/rpc-resources); the shapes the collector relies on: ReleaseRPCResources marks sent, descends into every reference and then opens the loading gate; populateResources* count an edge once, skip sent resources and mark ToSend before descending; removeCount's counter effects follow its direct/sent/tryDelete arguments; every disposed subscription leaves the connection's table (DOM/ref-shapes); references are released with the parent's sent-ness as it was while the edge was counted (PROV/sent-flag: known finding F6); the sent-count is raised once per created edge (PAIR/edge-sent-once: known finding F8); a re-sendable resource has a current snapshot and a closed gate (PAIR/snapshot-current: known finding F13); no change on a collection, no add/remove on a model, decoded indexes inside [0,len] (DOM/index-kind-guard); no event before the hand-over (DOM/event-gate); recursion census. NOT decided — and this is the core of the property: correctness of the two-pass reference-count collector tryDelete/Unsend and of the indirectsent arithmetic on arbitrary reference graphs. Added after seeding round 7: the encoding cached for the latest protocol is read by MarshalJSON only, so a legacy connection is never handed bytes in the wrong dialect (WHO/encoding-cache). Added after seeding round 8: collection snapshots held by still-loading subscriptions are never written in place (DOM/copy-on-write). Added after seeding round 9: marshalers put text into a frame only through json.Marshal, so every frame is well-formed (PROV/json-text). Added after seeding round 10: CONTRA/stale-test (see C01) for the collector's sent-count bookkeeping. Added after seeding round 11: the unsubscribe event releases every direct subscription (DOM/revoke), so no later event targets a resource the client dropped. Added after seeding round 12: the already-handed-over quick exit of populateResources* is taken for exactly the states to-send and sent, by constant propagation over the seven states (TABLE/populate-skip); a release with the collect flag set reaches the collector on every path (DOM/gc-after-release). Added after the mutation sweep: the continuation of an add/change event that waited for referenced resources sends only under state != disposed, tested after the wait (DOM/ready-continuation-live); a map member created on demand is written only where it exists (DOM/map-made).",
 		Assumptions: baseAssumptions,
 		Rules: []Rule{
+			{Name: "DOM/map-made", Min: 4, Run: ruleMapMade, Doc: "the errors / models / collections maps of a resource set are made before they are written: a failed reference is reported as an error entry, not as a crash"},
+			{Name: "DOM/ready-continuation-live", Min: 2, Run: ruleReadyContinuationLive, Doc: "an event that waited for its references is sent only if its subscription is still alive: no event for a resource the client dropped"},
+			{Name: "TABLE/legacy-select", Min: 8, Run: ruleLegacySelect, Doc: "every message is in the dialect of the protocol version the client negotiated"},
 			{Name: "DOM/gc-after-release", Min: 1, Run: ruleGCAfterRelease, Doc: "a released reference reaches the collector on every path: a dropped reference cycle does not stay marked sent"},
 			{Name: "TABLE/populate-skip", Min: 2, Run: rulePopulateSkip, Doc: "only resources that are part of a resource set already (to-send, sent) are skipped when a set is built: a deleted resource the client has dropped is delivered again with the set that references it"},
 			{Name: "DOM/revoke", Min: 1, Run: ruleRevoke, Doc: "an unsubscribe event tells the client to drop the resource: every direct subscription is released with it, so no event is sent for a resource the client no longer holds"},
@@ -286,6 +290,7 @@ func init() {
 		Explanation: "Decides: wsConn.dispose sets the flag and closes the worker channel in one critical section, removes the connection from the cache and from token-reset fan-out, unsubscribes the connection events, disposes every subscription, and leaves the registry (DOM/dispose); Subscription.Dispose releases references and exactly one cache use; Enqueue/Subscribe/Unsubscribe refuse a disposing connection; a late Loaded releases the cache use (PAIR/loaded-handover); late access answers are absorbed (DOM/verdict-store); no call/auth request is issued by a continuation of a disposed connection (CTX/post-dispose); a refused task never strands a throttle slot of other connections (PAIR/throttle-slot); temporary HTTP connections are disposed exactly once on every exit (LIN/temp-conn); sends on the worker channel cannot hit the close (CHAN); teardown takes the connection and cache mutexes in an order that cannot deadlock against the token-reset fan-out (LOCK/order). Not decided: 'no effect on other connections' as a runtime fact beyond the pairing rules of C09. Added after seeding round 7: every service request reads the connection's token and is therefore confined to the connection's worker (CTX/conn), whose queue refuses tasks after the close; a named function that sends a call/auth request hands the dispose test to each closure calling it (CTX/post-dispose). Added after seeding round 8: no function run with the event subscription's mutex held (the tasks of its worker) calls something that takes that mutex again (LOCK/order with held-on-entry states). Added after seeding round 9: a re-access trigger on a disposed subscription starts no access request (DOM/invalidate). Added after seeding round 11: the disposing test that keeps a continuation from sending a call/auth request lies in the continuation itself — a test in front of the creation of the continuation says nothing about the time it runs (CTX/post-dispose). Added after seeding round 12: PAIR/membership serves this property too.",
 		Assumptions: baseAssumptions,
 		Rules: []Rule{
+			{Name: "DOM/ready-continuation-live", Min: 2, Run: ruleReadyContinuationLive, Doc: "nothing is sent, and no reference counted as sent, for a subscription disposed while an event waited for its references"},
 			{Name: "LOCK/guarded-fields", Min: 40, Run: ruleGuardedFields, Doc: "the connection's queue and the cache's connection registry are touched under their mutexes while a connection goes away"},
 			{Name: "LOCK/balance", Min: 20, Run: ruleLockBalance, Doc: "teardown paths leave every mutex as they found it"},
 			{Name: "PAIR/membership", Min: 1, Run: rulePairMembership, Doc: "a repeated clean-up for a connection that is gone releases nothing twice: other connections' shared resources keep their counts"},
@@ -370,6 +375,7 @@ func init() {
 		Explanation: "Decides the panic classes that have a crisp rule: decoders return no data with an error, so log-and-continue callers cannot apply a partial message, and return the decoded object whenever they report success, so callers that dereference it cannot hit nil (DOM/all-or-nothing); decoded indexes reach slice operations only inside [0,len] with the exact bound for element access vs slicing, content is dereferenced only for the right kind (DOM/index-kind-guard); optional decoded pointers are dereferenced under their nil test or a predicate implying it, null elements of decoded pointer slices are rejected (DOM/opt-deref); explicit panics and unchecked type assertions are the listed ones (CENSUS/panic); no send on a channel that may have been closed (CHAN: known finding F5 for Cache.inCh); recursive cycles are the listed ones with checked guards (REC/census); the mutex acquisition graph is acyclic (LOCK/order); one Done per throttle slot, so the 'negative running counter' panic is unreachable (PAIR/throttle-slot); a failed or malformed re-fetch closes the reset window, so later valid messages are processed normally (DOM/reset-protocol). Not decided: index safety of lcs, ResourcePattern.Match, byte scans in UnmarshalJSON, encoder buffers; JSON library behaviour; memory exhaustion. Added after seeding round 8: a failed query request releases the event lock, so later messages are still processed (PAIR/query-lock). Added after seeding round 10: a value object naming two of rid, action and data is refused (TABLE/value-object); an answer carrying an error is an error (DOM/error-wins). Added after seeding round 11: every message is decoded as a whole — json.Unmarshal, or a streaming decode followed by a probe for trailing input (TABLE/whole-input); the kind of an answer is decided by the member that is present (TABLE/kind-by-presence).  Added after seeding round 12: an alias of a normalised query resource — base pointer or links entry — is recorded in the resource's alias list on the same path (PAIR/alias-recorded).",
 		Assumptions: baseAssumptions,
 		Rules: []Rule{
+			{Name: "DOM/map-made", Min: 4, Run: ruleMapMade, Doc: "a map member that is created on demand is written only where it is known to exist"},
 			{Name: "ERR/checked-before-use", Min: 20, Run: ruleErrCheckedBeforeUse, Doc: "what a fallible call hands back is looked into only after its error was found nil: a message that fails to decode is discarded as a whole"},
 			{Name: "DOM/lookup-ok", Min: 3, Run: ruleLookupOK, Doc: "the pointer a comma-ok map lookup returns is dereferenced only where the lookup found it"},
 			{Name: "DOM/const-index", Min: 3, Run: ruleConstIndex, Doc: "an element at a constant position of a payload, subject or path is read only where the length exceeds it"},
@@ -483,9 +489,10 @@ func init() {
 
 	register(&Property{
 		ID: "C20", Title: "Fail-stop on messaging loss or Stop, with all clients disconnected",
-		Explanation: "Decides: Stop runs metrics, sockets, HTTP, messaging in this order on the one path that is not a repeated Stop, sets stopping under the mutex first and reports the cause on the stop channel last; the messaging client is closed with a bounded wait before the cache stops; Cache.Stop closes the worker channel, clears pending evictions and resets started; no connection is created or registered once stopped or stopping; loss of the messaging connection stops the service with the cause (DOM/stop); sends on inCh cannot hit the close (CHAN: known finding F5); a connection reports itself done to Stop (wg.Done) only after it released its cache and messaging resources (DOM/dispose). Not decided: that sockets are closed within the timeouts, net/http shutdown, 'never serves from a stale cache' as a runtime fact. Added after seeding round 7: no mutex is re-acquired while held, directly or by a task the holder waits for (LOCK/order with synchronous hand-offs): Stop cannot deadlock on its own lock. Added after seeding round 9: the cause is put on the stop channel inside the critical section that returns the service to not-running, so Start/Stop can be repeated (DOM/stop). Added after seeding round 10: close stops the listener and clears the pending timeouts whenever the adapter was connected, also when the connection is already closed (DOM/nats-plumbing). Added after seeding round 12: the HTTP server object is created by startHTTPServer and cleared by stopHTTPServer only — a server that was shut down is never started again (WHO/stop). Added after the mutation sweep: close tears the adapter down completely whenever it was connected and does nothing otherwise, Close waits for the listener, a slow-consumer error closes the connection, the closed handler is kept (CONF/nats-lifecycle); mutexes are balanced on every path and the service's, cache's and adapter's guarded state is touched under its mutex (LOCK/balance, LOCK/guarded-fields); optional pointers are used under their nil test (DOM/optional-field).",
+		Explanation: "Decides: Stop runs metrics, sockets, HTTP, messaging in this order on the one path that is not a repeated Stop, sets stopping under the mutex first and reports the cause on the stop channel last; the messaging client is closed with a bounded wait before the cache stops; Cache.Stop closes the worker channel, clears pending evictions and resets started; no connection is created or registered once stopped or stopping; loss of the messaging connection stops the service with the cause (DOM/stop); sends on inCh cannot hit the close (CHAN: known finding F5); a connection reports itself done to Stop (wg.Done) only after it released its cache and messaging resources (DOM/dispose). Not decided: that sockets are closed within the timeouts, net/http shutdown, 'never serves from a stale cache' as a runtime fact. Added after seeding round 7: no mutex is re-acquired while held, directly or by a task the holder waits for (LOCK/order with synchronous hand-offs): Stop cannot deadlock on its own lock. Added after seeding round 9: the cause is put on the stop channel inside the critical section that returns the service to not-running, so Start/Stop can be repeated (DOM/stop). Added after seeding round 10: close stops the listener and clears the pending timeouts whenever the adapter was connected, also when the connection is already closed (DOM/nats-plumbing). Added after seeding round 12: the HTTP server object is created by startHTTPServer and cleared by stopHTTPServer only — a server that was shut down is never started again (WHO/stop). Added after the mutation sweep: close tears the adapter down completely whenever it was connected and does nothing otherwise, Close waits for the listener, a slow-consumer error closes the connection, the closed handler is kept (CONF/nats-lifecycle); mutexes are balanced on every path and the service's, cache's and adapter's guarded state is touched under its mutex (LOCK/balance, LOCK/guarded-fields); optional pointers are used under their nil test (DOM/optional-field). Added after the mutation sweep: Stop goes ahead only for a running, not-stopping service; a failed Start is cleaned up by Stop; startMQClient succeeds only connected, with the cache started and the closed handler installed; the done signal of stopMQClient follows the Close; the cache is started/torn down exactly with its flag; a started HTTP server is recorded, shut down and forgotten; the wait for connections runs on its own goroutine; a refused connection is not used (CONF/service-lifecycle).",
 		Assumptions: baseAssumptions,
 		Rules: []Rule{
+			{Name: "CONF/service-lifecycle", Min: 8, Run: ruleServiceLifecycle, Doc: "Stop's guard, clean-up after a failed Start, the messaging client's start and stop, the cache's and the HTTP server's start/stop pairing, the wait for connections raced against its timeout, refused connections not used"},
 			{Name: "DOM/optional-field", Min: 10, Run: ruleOptionalField, Doc: "a Stop without (or after) a Start dereferences no nil connection or server"},
 			{Name: "LOCK/guarded-fields", Min: 40, Run: ruleGuardedFields, Doc: "the stopping flag, the stop channel, the connection registry and the HTTP server are touched under the service mutex: a connection is not admitted by a test of stale state while Stop runs"},
 			{Name: "LOCK/balance", Min: 20, Run: ruleLockBalance, Doc: "Stop, Start and the teardown helpers leave every mutex as they found it: no path of the shutdown blocks for ever"},
